@@ -232,6 +232,50 @@ func cmdCacheRandom(args []string) error {
 }
 
 // cache-replay <event.json> <trace-out.ndjson>: rebuild the logged pre-state, apply the logged operation again.
+// cacheFrom builds a real cache directly in a given state (all its fields are exported: it is what Load does).
+func cacheFrom(pre cacheSnap) *cache.Cache {
+	ca := cache.NewCache().WithCacheSize(uint32(pre.Cap))
+	ca.Cache = nil
+	for _, fr := range pre.Frames {
+		m := map[string]string{}
+		for _, e := range fr {
+			m[e.K] = valueOf(e.Id, e.Len)
+		}
+		ca.Cache = append(ca.Cache, m)
+	}
+	for _, e := range pre.Sizes {
+		ca.Sizes[e.K] = uint16(e.V)
+	}
+	ca.CacheUseSize = uint32(pre.Used)
+	ca.LastValue = valueOf(pre.Last.Id, pre.Last.Len)
+	return ca
+}
+
+// cache-steps <steps.ndjson> <trace-out>: every line {pre, o} is one step taken from an ARBITRARY consistent cache
+// state (the inductive-step universe enumerated by TLC from CacheInd.tla), executed on a real cache built in that state.
+func cmdCacheSteps(args []string) error {
+	out, err := newNdw(args[1])
+	if err != nil {
+		return err
+	}
+	defer out.close()
+	n := 0
+	err = eachLine(args[0], func(line []byte) error {
+		var ev cacheEvent
+		if err := json.Unmarshal(line, &ev); err != nil {
+			return err
+		}
+		ca := cacheFrom(ev.Pre)
+		pre := snapCache(ca)
+		ok, val, pan := applyCacheOp(ca, ev.O)
+		out.put(cacheEvent{Ev: "op", First: true, O: ev.O, Ok: ok, Val: val, Panic: pan, Pre: pre, Post: snapCache(ca)})
+		n++
+		return nil
+	})
+	summary(map[string]any{"steps": n})
+	return err
+}
+
 func cmdCacheReplay(args []string) error {
 	b, err := os.ReadFile(args[0])
 	if err != nil {
@@ -241,20 +285,7 @@ func cmdCacheReplay(args []string) error {
 	if err := json.Unmarshal(b, &ev); err != nil {
 		return err
 	}
-	ca := cache.NewCache().WithCacheSize(uint32(ev.Pre.Cap))
-	ca.Cache = nil
-	for _, fr := range ev.Pre.Frames {
-		m := map[string]string{}
-		for _, e := range fr {
-			m[e.K] = valueOf(e.Id, e.Len)
-		}
-		ca.Cache = append(ca.Cache, m)
-	}
-	for _, e := range ev.Pre.Sizes {
-		ca.Sizes[e.K] = uint16(e.V)
-	}
-	ca.CacheUseSize = uint32(ev.Pre.Used)
-	ca.LastValue = valueOf(ev.Pre.Last.Id, ev.Pre.Last.Len)
+	ca := cacheFrom(ev.Pre)
 	out, err := newNdw(args[1])
 	if err != nil {
 		return err
@@ -268,6 +299,7 @@ func cmdCacheReplay(args []string) error {
 
 func init() {
 	register("cache-replay", cmdCacheReplay)
+	register("cache-steps", cmdCacheSteps)
 	register("cache-mbt", cmdCacheMbt)
 	register("cache-random", cmdCacheRandom)
 }
